@@ -264,7 +264,10 @@ func main() {
 	comparable := []*ty.Ty{b("int"), b("string"), b("float64"), b("bool"), n(0), n(1), n(2), n(3), n(5), n(15)}
 	noncomp := []*ty.Ty{ty.Sl(b("int")), ty.P(n(5)), ty.M(b("string"), b("int")), n(6), ty.Sl(b("float64")), ty.Sl(b("string")),
 		// a bool-keyed map (hashed over its sorted keys like any other) and a map with nil-able values
-		ty.M(b("bool"), ty.Sl(b("string"))), ty.M(b("int"), ty.Sl(b("string")))}
+		ty.M(b("bool"), ty.Sl(b("string"))), ty.M(b("int"), ty.Sl(b("string"))),
+		// imported structs with unexported fields (incl. names starting with an underscore): arguments that differ only
+		// there are different arguments
+		n(28), n(18)}
 	if *thorough {
 		comparable = append(comparable, n(14), ty.Ar(2, b("string")), b("int8"), b("uint64"), b("complex128"), n(21))
 		noncomp = append(noncomp, n(11), n(12), n(13), ty.P(b("int")), ty.Sl(n(5)), ty.P(n(6)), ty.M(b("int"), ty.Sl(b("int"))), n(7))
